@@ -29,7 +29,7 @@ TIERS = {
 }
 
 
-def shapes(c, full):
+def shapes(c, full, long_lists=True):
     cfg = os.path.join(c.work, "MC_Wire.cfg")
     with open(common.VERIF + "/spec/mc/MC_Wire.cfg") as f:
         text = f.read().replace("CONSTANT Full = FALSE", "CONSTANT Full = %s" % ("TRUE" if full else "FALSE"))
@@ -44,6 +44,10 @@ def shapes(c, full):
         out.append({"sh": sh, "hlen": hlen, "dlen": dlen, "total": total, "o0": o0, "o3": o3})
     if len(out) != r.distinct:
         raise common.ToolError("shape dump incomplete: %d of %d" % (len(out), r.distinct))
+    if not long_lists:
+        # the long-list shapes (hundreds of items, kilobytes) serve the round trip (C05); mutating every octet of them
+        # or applying every error pattern to them (C06, C15) would cost hours and adds no new decoder path
+        out = [x for x in out if x["sh"]["nresp"] < 100 and x["sh"]["nreq"] < 100]
     p = os.path.join(c.work, "shapes.json")
     with open(p, "w") as f:
         json.dump({"shapes": out}, f)
@@ -94,7 +98,7 @@ def report(c, prop, viols):
 def run(prop, tier, seed):
     t = TIERS[tier]
     c = common.Check(prop, tier, seed, "model_checking")
-    r, spath, nshapes = shapes(c, t["full"])
+    r, spath, nshapes = shapes(c, t["full"], long_lists=(prop == "C05"))
     if prop == "C05":
         out = json.loads(common.run_bin("wire", ["shapes", spath, seed, t["per"]], timeout=7200))
         ru, upath, ntempl, nops = uo_templates(c, t["full"])
